@@ -480,7 +480,7 @@ class RestartApplication:
                      {'strategy': 'List[str]'}]
 
     def pre_valid(self):
-        return valid(self)
+        return cmd_valid(self)
 
     def post_served_only_when_acceptable(self, strategy, application_name, old):
         return (fsm_state(old.self) == SupvisorsStates.OPERATION and valid_strategy(strategy, StartingStrategies)
@@ -724,8 +724,9 @@ class StartAnyProcess:
         return (exc.code == BAD_STATE) == (fsm_state(old.self) != SupvisorsStates.OPERATION)
 
     def exc_RPCError_codes(self, strategy, exc, old):
-        return (implies(exc.code == Faults.INCORRECT_PARAMETERS, not valid_strategy(strategy, StartingStrategies))
-                and exc.code != NOT_MANAGED)
+        # no converse 'INCORRECT_PARAMETERS only for an unknown strategy' here: the statement does not ask for it and
+        # the regex is a second parameter that can be incorrect (strings are uninterpreted: its validity is not modelled)
+        return exc.code != NOT_MANAGED
 
     def exc_RPCError_invalid_parameters(self, strategy, exc, old):
         return implies(fsm_state(old.self) == SupvisorsStates.OPERATION
